@@ -196,3 +196,25 @@ func FaultDialer() (func(string) (net.Conn, error), func() *FaultConn) {
 	}
 	return dial, func() *FaultConn { mu.Lock(); defer mu.Unlock(); return last }
 }
+
+// ArmedDialer is FaultDialer whose connections are armed from their first byte (faults during
+// the registration handshake).
+func ArmedDialer(kind, dir string, off int64) (func(string) (net.Conn, error), func() *FaultConn) {
+	var mu sync.Mutex
+	var last *FaultConn
+	dial := func(path string) (net.Conn, error) {
+		c, err := net.Dial("unix", path)
+		if err != nil {
+			return nil, err
+		}
+		fc := &FaultConn{Conn: c}
+		if kind != "" {
+			fc.Arm(kind, dir, off)
+		}
+		mu.Lock()
+		last = fc
+		mu.Unlock()
+		return fc, nil
+	}
+	return dial, func() *FaultConn { mu.Lock(); defer mu.Unlock(); return last }
+}
